@@ -307,3 +307,6 @@ Proof.
   - cbn [map] in Hin. apply elem_of_cons in Hin as [Hin|Hin]; [congruence|].
     rewrite IH by exact Hin. rewrite insert_commute by congruence. reflexivity.
 Qed.
+
+Lemma rt_abs_new : rt_abs rt_new = ∅.
+Proof. unfold rt_abs, rt_new. cbn [main lo hb_new hel]. apply (left_id_L ∅ (∪)). Qed.
